@@ -250,6 +250,10 @@ func (c *boundedPool) pruneIdleConns(idleTime time.Duration) {
 			for {
 				select {
 				case conn := <-conns:
+					if conn == nil {
+						// The pool was closed and its channel drained while pruning.
+						goto DONE
+					}
 					if conn.t.Add(idleTime).Before(time.Now()) {
 						c.tryFree()
 						conn.c.Close()
@@ -263,8 +267,16 @@ func (c *boundedPool) pruneIdleConns(idleTime time.Duration) {
 		DONE:
 			if len(newConns) > 0 {
 				c.mu.RLock()
-				for _, conn := range newConns {
-					c.conns <- conn
+				if c.conns == nil {
+					// The pool was closed meanwhile: a send on the nil channel would
+					// block for ever holding the lock; close what was taken out.
+					for _, conn := range newConns {
+						conn.c.Close()
+					}
+				} else {
+					for _, conn := range newConns {
+						c.conns <- conn
+					}
 				}
 				c.mu.RUnlock()
 				newConns = nil
